@@ -1,5 +1,5 @@
 (* Properties/C08.v — numeric bound keywords admit exactly the numbers inside the bounds *)
-From LLG Require Import Base Params Regex RegexProofs Numeric NumericProofs FloatRangeProofs.
+From LLG Require Import Base Params Regex RegexProofs Numeric NumericProofs FloatRangeProofs IntBounds IntBoundsProofs.
 Open Scope Z_scope.
 
 (* integer ranges (rx_int_range of numeric.rs): an integer literal is accepted exactly when
@@ -82,3 +82,22 @@ Theorem C08_empty_decimal_range_rejected : forall l r li ri,
    (dec_lt r l = true \/ (dec_eq l r = true /\ (li && ri) = false))).
 Proof. exact float_range_error_iff_empty. Qed.
 Print Assumptions C08_empty_decimal_range_rejected.
+
+(* integer schemas with fractional and / or exclusive bounds (normalize_integer_bounds rounds them
+   to the inclusive integer bounds rx_int_range is called with): an integer literal is accepted
+   exactly when its value lies inside the bounds as written; bound_fits: the rounded bound fits the
+   i64 the code converts to *)
+Theorem C08_integer_schema_decimal_bounds_exact : forall lo hi rx z,
+  bound_digits lo -> bound_digits hi -> bound_fits lo -> bound_fits hi -> Z.abs z < 10 ^ 80 ->
+  rx_int_bounds lo hi = NOk rx ->
+  (re_lang rx (int_literal z) <-> in_dec_bounds lo hi z).
+Proof. exact int_bounds_exact. Qed.
+Print Assumptions C08_integer_schema_decimal_bounds_exact.
+
+(* ... and such a schema is rejected at compile time exactly when no integer lies inside *)
+Theorem C08_integer_schema_no_integer_rejected : forall l r el er,
+  dec_digits l -> dec_digits r -> bound_fits (Some (l, el)) -> bound_fits (Some (r, er)) ->
+  (rx_int_bounds (Some (l, el)) (Some (r, er)) = NErr <->
+   forall z, ~ in_dec_bounds (Some (l, el)) (Some (r, er)) z).
+Proof. exact int_bounds_error_iff_empty. Qed.
+Print Assumptions C08_integer_schema_no_integer_rejected.
